@@ -111,3 +111,66 @@ theorem conv_refine (D : Pt K → K) (l : List (Pt K)) (h : Conv l) : Conv (refi
 /-- **One plane keeps the polygon weakly convex and counter-clockwise.** -/
 theorem conv_clipPlane2 (D : Pt K → K) (l : List (Pt K)) (h : Conv l) : Conv (clipPlane2 D l) :=
   Conv.sublist (clipPlane2_sublist D l) (conv_refine D l h)
+
+/-! ### Vertex-wise predicates closed under strict interpolation survive a plane -/
+
+theorem mem_refEdges (D : Pt K → K) (first : Pt K) (l : List (Pt K)) (c : Pt K)
+    (h : c ∈ refEdges D first l) : c ∈ l ∨ ∃ a ∈ l, ∃ b ∈ first :: l, c ∈ cross2 D a b := by
+  induction l with
+  | nil => simp [refEdges] at h
+  | cons v l ih =>
+    cases l with
+    | nil =>
+      simp only [refEdges, List.mem_cons] at h
+      rcases h with rfl | h
+      · exact Or.inl (by simp)
+      · exact Or.inr ⟨v, by simp, first, by simp, h⟩
+    | cons w l =>
+      simp only [refEdges, List.cons_append, List.mem_cons, List.mem_append] at h
+      rcases h with rfl | h | h
+      · exact Or.inl (by simp)
+      · exact Or.inr ⟨v, by simp, w, by simp, h⟩
+      · rcases ih (by simpa [List.mem_cons] using h) with h | ⟨a, ha, b, hb, hc⟩
+        · exact Or.inl (List.mem_cons_of_mem _ h)
+        · refine Or.inr ⟨a, List.mem_cons_of_mem _ ha, b, ?_, hc⟩
+          simp only [List.mem_cons] at hb ⊢
+          tauto
+
+theorem refine_preserves (Q : Pt K → Prop) (D : Pt K → K)
+    (hQ : ∀ a b s, Q a → Q b → 0 < s → s < 1 → Q (lerpPt a b s))
+    (l : List (Pt K)) (hl : ∀ c ∈ l, Q c) : ∀ c ∈ refine D l, Q c := by
+  intro c hc
+  cases l with
+  | nil => simp [refine] at hc
+  | cons v l =>
+    rcases mem_refEdges D v (v :: l) c hc with h | ⟨a, ha, b, hb, hx⟩
+    · exact hl c h
+    · have hb' : b ∈ v :: l := by
+        simp only [List.mem_cons] at hb ⊢; tauto
+      unfold cross2 at hx
+      split at hx
+      · rename_i hcr
+        obtain ⟨h0, h1⟩ := crossT_mem _ _ hcr
+        rw [List.mem_singleton.mp hx]
+        exact hQ a b _ (hl a ha) (hl b hb') h0 h1
+      · simp at hx
+
+theorem clipPlane2_preserves (Q : Pt K → Prop) (D : Pt K → K)
+    (hQ : ∀ a b s, Q a → Q b → 0 < s → s < 1 → Q (lerpPt a b s))
+    (l : List (Pt K)) (hl : ∀ c ∈ l, Q c) : ∀ c ∈ clipPlane2 D l, Q c :=
+  fun c hc => refine_preserves Q D hQ l hl c ((clipPlane2_sublist D l).subset hc)
+
+/-- the closed unit simplex of barycentric coordinates (u,v) -/
+def InSimplex (c : Pt K) : Prop := 0 ≤ c.1 ∧ 0 ≤ c.2 ∧ c.1 + c.2 ≤ 1
+
+theorem inSimplex_lerp (a b : Pt K) (s : K) (ha : InSimplex a) (hb : InSimplex b)
+    (h0 : 0 < s) (h1 : s < 1) : InSimplex (lerpPt a b s) := by
+  obtain ⟨a1, a2, a3⟩ := ha
+  obtain ⟨b1, b2, b3⟩ := hb
+  have e : ∀ x y : K, lerp x y s = (1 - s) * x + s * y := by intro x y; simp only [lerp]; ring
+  have h1s : 0 ≤ 1 - s := by linarith
+  refine ⟨?_, ?_, ?_⟩
+  · simp only [lerpPt, e]; exact cc_nonneg h0.le h1.le a1 b1
+  · simp only [lerpPt, e]; exact cc_nonneg h0.le h1.le a2 b2
+  · simp only [lerpPt, e]
+    nlinarith [mul_nonneg h1s (sub_nonneg.mpr a3), mul_nonneg h0.le (sub_nonneg.mpr b3)]
